@@ -357,7 +357,7 @@ func (ni *nodeInst) exec(o string) string {
 			return "bad-op" // two claims about self in one merge race with the refuting goroutine
 		}
 		expect := selfLeft == 1 && ni.selfClaimNewer(status[nodeSelf]+1)
-		dg.MergeRemoteState(serf.VerifEncodePushPull(lt, status, left), false)
+		dg.MergeRemoteState(serf.VerifEncodeMemberPushPull(lt, status, left), false)
 		if expect {
 			timedOut = !ni.waitQueued(1)
 		}
